@@ -144,6 +144,11 @@ func (w *World) forge(ctx context.Context, toks []string) {
 		// a writer's id, the attacker's key and signatures
 		ident = &idp.Identity{ID: victim.identity.ID, PublicKey: att.identity.PublicKey, Signatures: att.identity.Signatures,
 			Type: att.identity.Type, Provider: &signerProvider{att.identity.Provider, att.identity}}
+	case "othertype":
+		// a writer's id, the attacker's key, junk signatures, and an identity type no provider checks
+		ident = &idp.Identity{ID: victim.identity.ID, PublicKey: att.identity.PublicKey,
+			Signatures: &idp.IdentitySignature{ID: []byte("junk"), PublicKey: []byte("junk")},
+			Type: "other", Provider: &signerProvider{att.identity.Provider, att.identity}}
 	case "foreignkey":
 		// the writer's whole identity block (so Key = the writer's key) but signed by the attacker
 		ident = &idp.Identity{ID: victim.identity.ID, PublicKey: victim.identity.PublicKey, Signatures: victim.identity.Signatures,
@@ -157,7 +162,7 @@ func (w *World) forge(ctx context.Context, toks []string) {
 	e := ie.(*entry.Entry)
 	rehash := true
 	switch recipe {
-	case "honest", "own", "copiedid", "foreignkey", "otherlog":
+	case "honest", "own", "copiedid", "foreignkey", "otherlog", "othertype":
 	case "copiedblock":
 		// entry signed with the attacker's key (Key = attacker) but carrying the writer's identity block
 		e.SetIdentity(victim.identity.Filtered())
@@ -199,6 +204,10 @@ func (w *World) forge(ctx context.Context, toks []string) {
 		f := *e.GetIdentity()
 		f.Signatures = victim.identity.Signatures
 		e.SetIdentity(&f)
+	case "mut-identtype":
+		f := *e.GetIdentity()
+		f.Type = "other"
+		e.SetIdentity(&f)
 	case "mut-logid":
 		e.SetLogID(w.dbAddr + "x")
 	case "badhash":
@@ -218,7 +227,7 @@ func (w *World) forge(ctx context.Context, toks []string) {
 	default:
 		panic("unknown recipe " + recipe)
 	}
-	if rehash && recipe != "honest" && recipe != "own" && recipe != "copiedid" && recipe != "foreignkey" && recipe != "otherlog" {
+	if rehash && recipe != "honest" && recipe != "own" && recipe != "copiedid" && recipe != "foreignkey" && recipe != "otherlog" && recipe != "othertype" {
 		h, err := entry.ToMultihashWithIO(ctx, e, att.api, nil, io)
 		if err != nil {
 			w.printf("forged %d err %s\n", a, strings.ReplaceAll(err.Error(), "\n", " "))
